@@ -42,7 +42,7 @@ Definition tables_wf : bool :=
   forallb (fun s => match row_of s with
                     | Some r => len_is 4 (r_calc_key_prf r) && len_is 5 (r_ffv r)
                                 && len_is 4 (r_labels r) && forallb (len_is 5) (r_labels r) && len_is 4 (r_exporter r)
-                                && len_is 3 (r_filter_prfs r)
+                                && len_is 3 (r_filter_prfs r) && len_is 6 (r_filter_cert r)
                     | None => false end) all_suites
   && Nat.eqb (List.length rows) (List.length all_suites)
   && forallb (fun c => match sassoc c srv_candidates with Some t => len_is 5 t | None => false end) creds
@@ -141,11 +141,27 @@ Definition psk_ok (m : meaning) (r : suite_row) (v : Z) : bool :=
                 ["sha256"; "sha384"]) [true; false]
   else true.
 
+(* filter_for_certificate: with a server certificate of key type rsa / rsa-pss / ecdsa / Ed25519 / dsa, or with no
+   certificate, the suite may be selected exactly when that is the authentication its name denotes (RSA key
+   transport cannot use an rsa-pss key; TLS 1.3 suites fit every certificate) *)
+Definition cert_fit (m : meaning) : list bool :=
+  match m_kx m, m_auth m with
+  | KxTLS13, _ => [true; true; true; true; true; true]
+  | KxRSA, AuRSA => [true; false; false; false; false; false]
+  | _, AuRSA => [true; true; false; false; false; false]
+  | _, AuECDSA => [false; false; true; true; false; false]
+  | _, AuDSS => [false; false; false; false; true; false]
+  | _, _ => [false; false; false; false; false; true]
+  end.
+Definition blist_eqb (a b : list bool) : bool :=
+  Nat.eqb (List.length a) (List.length b) && forallb (fun p => Bool.eqb (fst p) (snd p)) (combine a b).
+Definition cert_ok (m : meaning) (r : suite_row) : bool := blist_eqb (r_filter_cert r) (cert_fit m).
+
 Definition chk_classification (s v : Z) : bool :=
   match meaning_of s, row_of s with
   | Some m, Some r => cipher_settings_ok m r && mac_settings_ok m r && prf_ok m r v
                       && labels_ok m r v && exporter_ok m r v && deprecated_ok m r v && keyupdate_ok m r v
-                      && psk_ok m r v
+                      && psk_ok m r v && cert_ok m r
   | _, _ => false
   end.
 
@@ -359,4 +375,9 @@ Definition chk_suite_sources : bool :=
   && forallb (fun p => existsb (fun e => let '(fn, _, _) := e in String.eqb fn (fst p)) suite_arg_sources)
              allowed_suite_sources
   && existsb (fun g => String.eqb (fst g) "serverHello.cipher_suite != session.cipherSuite" && snd g) resume_suite_guards
-  && forallb (fun g => snd g) resume_suite_guards.
+  && forallb (fun g => snd g) resume_suite_guards
+  (* a server with several key pairs filters the suites by the certificate it is about to send: inside the loop over
+     candidate pairs filter_for_certificate takes the loop's certificate *)
+  && negb (Nat.eqb (List.length cert_filter_sites) 0)
+  && forallb (fun e => let '(_, _, kind) := e in negb (String.eqb kind "not-loop-var")) cert_filter_sites
+  && existsb (fun e => let '(_, _, kind) := e in String.eqb kind "loop") cert_filter_sites.
